@@ -3,7 +3,7 @@ From Coq Require Import List Arith Bool ZArith Lia Ring QArith Qcanon Sorted.
 From Coq Require Import setoid_ring.InitialRing.
 From Verif.lib Require Import Slice Bsp.
 From Verif.C14 Require Model.
-From Verif.C10 Require Import Model Model_ic Proofs Proofs_ic Proofs_mp Props.
+From Verif.C10 Require Import Model Model_ic Model_bc Proofs Proofs_ic Proofs_ic2 Proofs_ic3 Proofs_mp Proofs_bc Props.
 Import ListNotations.
 
 (* the ring hypothesis is inhabited by Z and by the rationals *)
@@ -139,3 +139,32 @@ Example ex_all_once : Forall (fun n => 0 < n) [3; 3] /\
   dirichlet_bcs_all_indices [3; 3] 0 = Some [0; 1; 2; 3; 5; 6; 7; 8] /\
   dirichlet_bcs_all_indices [2; 2] 2 = Some [0; 1; 2; 3; 4; 5; 6; 7].
 Proof. split; [repeat constructor|]. vm_compute. split; reflexivity. Qed.
+
+(* ---- any list of conditions; values ---- *)
+Example ex_conds_ok : Forall (cond_ok [3; 3]) [(BName BTop, 0); (BPair 1 0, 2); (BName BTop, 0)].
+Proof. repeat constructor; [exists 0, 1 | exists 1, 0 | exists 0, 1]; split; (vm_compute; reflexivity) || (simpl; lia). Qed.
+Example ex_conds_result : dirichlet_bcs_indices [3; 3] [(BName BTop, 0); (BPair 1 0, 2); (BName BTop, 0)]
+  = Some [0; 3; 6; 7; 8; 9; 12; 15] /\ dirichlet_bcs_indices [3; 3] [(BName BTop, 0); (BName BFront, 0)] = None.
+Proof. vm_compute. split; reflexivity. Qed.
+(* vector data on the left face of a 2x3 patch, coefficient (k, j) = 10*k + j, one nan *)
+Example ex_vector_values :
+  dirichlet_bc_vector Z [2; 3] (BName BLeft) 2 (fun k j => if (k =? 1) && (j =? 0) then None else Some (Z.of_nat (10 * k + j)))
+  = Some ([0; 6; 9], [0; 1; 11]%Z).
+Proof. vm_compute. reflexivity. Qed.
+Example ex_scalar_values :
+  dirichlet_bc_scalar Z [2; 3] (BName BRight) (fun k => if k =? 0 then None else Some (Z.of_nat k)) = Some ([5], [1]%Z).
+Proof. vm_compute. reflexivity. Qed.
+
+(* hypothesis of initial_condition_spacetime: two spatial dofs on the knot vector ex_tkv ([2,3], p = 2) *)
+Example ex_spacetime_hyp :
+  let G0 := fun s : nat => qq (Z.of_nat s + 1) 2 in let G1 := fun s : nat => qq 4 1 in
+  let c := fun (j s : nat) => match j with 0 => G0 s | 1 => (G0 s + qq 1 1)%Qc | _ => qq 7 3 end in
+  forall s, s < 2 -> c 0 s = fst (ic_coeffs ex_tkv 2 0 (G0 s) (G1 s)) /\ c 1 s = snd (ic_coeffs ex_tkv 2 0 (G0 s) (G1 s)).
+Proof. intros G0 G1 c s Hs. destruct s as [|[|s]]; [| |lia]; split; apply Qc_is_canon; vm_compute; reflexivity. Qed.
+
+(* initial condition with values on a 3x2 patch, time axis 0, upper end: slices 1 and 2 *)
+Example ex_ic_values_hyp : parse_bdspec (BPair 0 1) (length [3; 2]) = Some (0, 1) /\ 2 <= nth 0 [3; 2] 0.
+Proof. split; [vm_compute; reflexivity|simpl; lia]. Qed.
+Example ex_ic_values : initial_condition Z [3; 2] (BPair 0 1) (fun k s => Z.of_nat (10 * k + s))
+  = Some ([2; 3; 4; 5], [0; 1; 10; 11]%Z) /\ put 0 2 [1; 1] = [2; 1].
+Proof. vm_compute. split; reflexivity. Qed.
